@@ -220,6 +220,10 @@ NATIVE_TWINS = {
     # property -> (test file in bounded_native/, [test fn names or None for all], stated bound)
     'C17': ('c17_registration_model', None,
             '4000 pseudo-random sequences x 16 operations (register, unregister, toggle side, move either king) on a two-king board vs a reference multiset of (placement, side to move) and a reference stack'),
+    'C01': ('c01_perft_suite', ['leaf_counts_match_the_published_perft_figures_with_a_fresh_generator'],
+            'five standard perft positions (start 1..4, Kiwipete 1..3, position 3 1..4, position 4 1..3, position 5 1..3): leaf counts of generate_moves + apply + undo against the published figures, board restored'),
+    'C02': ('c01_perft_suite', ['leaf_counts_do_not_depend_on_what_the_generator_was_asked_before'],
+            'one generator reused across five standard perft positions, depths 1..3, two rounds: leaf counts equal the published figures whatever was asked before'),
     'C06': ('c06_annotation_model', None,
             '24 positions (14 pseudo-random openings, discovered check / mate by en passant, by a quiet move, double check, promotions incl. under-promotions, back-rank mate, stalemate threat, castling check; a fresh oracle generator per successor): every listed move is annotated with the verdict of its successor; player_is_in_check / player_is_in_checkmate / game_ending agree with a brute-force reading'),
     'C07': ('c07_search_model', None,
@@ -288,7 +292,7 @@ def fallback_bounded(pid):
                               k['tail'], {'has_input': bool(k.get('playback')), 'checker_cmd': k['cmd'], 'failed_checks': k['failed_checks'],
                                           'concrete_playback': k.get('playback'), 'bounded': k['bound']}))
         return {'kani': k, 'violations': viol}
-    if pid in ('C05', 'C02'):
+    if pid == 'C05':
         k = run_kani_moves(dr.REPO, ['key_is_function_of_position_two_ply', 'two_ply_apply_undo_board_a'])
         k['bound'] = 'board_a of kani/moves.rs, six fixed first moves x a symbolic reply: key == key of the same position set up directly; key restored by undo; public API only'
         viol = []
